@@ -85,8 +85,19 @@ def check_length_reader(ctx, f):
             if rest[0] == 'lit' and isinstance(rest[1], bytes) and val[0] == 'lit' and isinstance(val[1], int) and not isinstance(val[1], bool):
                 return ('ok', rest[1], val[1])
         if v[0] == 'ctor' and v[1] == 'Err' and len(v[2]) == 1 and v[2][0][0] == 'ctor' and v[2][0][1].startswith('Err::'):
+            shapes_seen[bytes(octets)] = err_shape(v)
             return ('err', v[2][0][1][len('Err::'):])
         return ('?', absx.fmt(v)[:70])
+    shapes_seen = {}
+    def err_shape(v):
+        # what an error answer is made of, without the input it quotes: constructor and callee names, literals that are not octets
+        if v[0] in ('ctor', 'struct'):
+            return (v[1],) + tuple(err_shape(x if v[0] == 'ctor' else x[1]) for x in v[2])
+        if v[0] == 'call':
+            return (v[1],) + tuple(err_shape(x) for x in v[2])
+        if v[0] == 'tryerr':
+            return err_shape(v[1])
+        return ('_',)
     def show(r):
         return 'Ok((%s, %d))' % (hexs(r[1][:4]) + (' .. %d more' % (len(r[1]) - 4) if len(r[1]) > 4 else ''), r[2]) if r[0] == 'ok' else 'Err(%s)' % r[1] if r[0] == 'err' else r[1]
     # ---- every first octet: the form, the number of octets read, the remainder
@@ -127,6 +138,19 @@ def check_length_reader(ctx, f):
             vecs += [b'\x00' * (n - 1) + b'\x81', b'\x7f' + b'\x00' * (n - 1), b'\x01' + b'\x00' * (n - 2) + b'\x05' if n >= 2 else b'\x05', b'\x00' + bytes(range(0xa1, 0xa0 + n))]
     for n in (10, 11, 12, 16, 33, 64, 65, 127):
         vecs += [b'\x00' * (n - 8) + bytes(range(1, 9)), b'\x00' * (n - 8) + b'\xff' * 8, b'\x00' * (n - 1) + b'\x2a', b'\x00' * (n - 2) + b'\x01\x00']
+    # the reader's own constants (whatever it compares a count or a width with) are boundaries of its case analysis: zero-padded and
+    # full-width fields of c - 1, c, c + 1 octets for every small integer literal c in its body and in what it inlines
+    consts = set()
+    for path in [RL.path] + sorted(q for q in f.hir if inl(q) and q != RL.path):
+        for n_, c_ in walk(f.hir[path]['body']):
+            if n_['k'] == 'Lit' and isinstance(n_.get('v'), int) and not isinstance(n_.get('v'), bool) and 1 <= n_['v'] <= 127:
+                consts.add(n_['v'])
+    for c in sorted(consts):
+        for n in (c - 1, c, c + 1):
+            if 1 <= n <= 127:
+                vecs += [b'\x00' * (n - 1) + b'\x2a', (b'\x00' * (n - 8) if n > 8 else b'') + b'\x01' + b'\x00' * (min(n, 8) - 1)]
+    unfit = [b'\x01' + b'\x00' * 8, b'\xff' * 9, bytes(range(1, 10)), b'\x00\x01' + b'\x00' * 8, b'\x01' + b'\x00' * 11, b'\x80' + b'\x00' * 15, b'\x01' + b'\x00' * 126,
+             b'\x01' + b'\x00' * 7 + b'\x02']
     vecs = sorted({v for v in vecs if int.from_bytes(v, 'big') < 2 ** 64}, key=lambda v: (len(v), v))
     bad = []
     for P in vecs:
@@ -140,6 +164,18 @@ def check_length_reader(ctx, f):
             'the length announced in the long form is the big-endian value of the length octets (interpreted exactly on %d literal length fields of 0..9 octets and zero-padded ones up to 127 octets): '
             '%s - an element of that size is cut short or over-read, and everything after it in the stream is misparsed' % (len(vecs), '; '.join(bad[:3])))
     ctx.floor('B2', 'literal length fields the long-form value was decided on', len(vecs), 80)
+    # ---- a length no accumulator holds (more than eight significant octets): refused - never cut down to its low octets, never awaited
+    bad, refusal_shapes = [], set()
+    for P in unfit:
+        inp = bytes([0x80 + len(P)]) + P + b'\x41\x42\x43'
+        got = read(inp)
+        if got[0] == 'err' and got[1] != 'Incomplete':
+            refusal_shapes.add(shapes_seen.get(inp))
+        else:
+            bad.append('%d length octets %s (2^64 or more) answered %s' % (len(P), hexs(P) if len(P) <= 12 else hexs(P[:2]) + ' .. ' + hexs(P[-2:]), show(got)))
+    ctx.add('B2.reader-long-form-value-fits', '>= 2^64', here, not bad,
+            'a long-form length whose value no 64-bit accumulator holds must be refused with an error (interpreted exactly on %d literal length fields): %s - the element is delimited '
+            'after the low 64 bits of the announced length (or waited for), and everything after it in the stream is misparsed' % (len(unfit), '; '.join(bad[:3])))
     # ---- fewer octets buffered than announced: ask for more
     bad, n_short = [], 0
     for x in range(129, 256):
@@ -204,6 +240,10 @@ def check_length_reader(ctx, f):
                 v = v[1]
             asks = v[0] == 'ctor' and v[1] == 'Err' and v[2] and v[2][0][0] == 'ctor' and v[2][0][1].rsplit('::', 1)[-1] == 'Incomplete'
             cause = asks and any(says_short(sem.strip_site(a), t) for a, t in o.st.pc)
+            # an explicit refusal: legitimate for a length that does not fit the accumulator, and for nothing else - accepted when it is
+            # the very answer the literal evaluation got for such lengths (and B2.reader-long-form-value shows that every length
+            # that does fit, on both sides of each of the reader's own thresholds, is read and not refused)
+            cause = cause or (not asks and err_shape(v) in refusal_shapes)
         ctx.add('B2.reader-no-extra-rejection', 'parse_length', here, cause,
                 'the length reader rejects its input on a path where none of its primitives (be_u8, take, parse_uint, conversion to usize) failed - or answers a short buffer with an error instead of Incomplete: a valid definite length is refused, or a frame split inside its length octets kills the connection (%s)' %
                 ', '.join(('' if t else '!') + absx.fmt(a)[:50] for a, t in o.st.pc[-2:]))
